@@ -24,6 +24,11 @@ from pyvc.state import Unsupported
 from pyvc.vals import ANY, B, I, STR, V, Val, as_int, as_ref, fresh_name, uf, v_bool, v_int
 
 SEQ = z3.ArraySort(I, Val)
+
+
+def lib_pattern_ok(t):
+    from pyvc.state import pattern_ok
+    return pattern_ok(t)
 DOM = z3.ArraySort(Val, B)
 
 
@@ -46,6 +51,11 @@ def aud_nerr(ex, st, e, db):
     n, _ = _err_parts(ex, st, e, db)
     st.assume(n >= 0)
     return v_int(n)
+
+
+@spec('aud_raises')
+def aud_raises(ex, st, e, db):
+    return v_bool(uf('C12.aud_raises', Val, Val, B)(ex.box(st, e), ex.box(st, db)))
 
 
 def _pair(ex, st, res):
@@ -157,3 +167,42 @@ def c12_fresh_set(ex, st, s):
     fact = z3.And(Val.is_ref(s.t), r >= st.alloc)
     st.alloc = r + 1
     return v_bool(fact)
+
+
+@spec('c12_old_objects_unchanged')
+def c12_old_objects_unchanged(ex, st, *fields):
+    """Loop-invariant frame: the internal list fields of every object that existed when the function
+    was entered are what they were at entry (the loops of the audit only grow lists they allocated)."""
+    names = [f.lit for f in fields] or ['$len', '$elems']
+    r = z3.Int(fresh_name('r'))
+    facts = []
+    for f in names:
+        cur = st.field(f)
+        old = st.heap0.get(f)
+        if old is None or cur.eq(old):
+            continue
+        facts.append(z3.ForAll([r], z3.Implies(z3.And(r >= 0, r < st.alloc0), z3.Select(cur, r) == z3.Select(old, r))))
+    return v_bool(z3.And(*facts) if facts else z3.BoolVal(True))
+
+
+@spec('aud_nerr_upto')
+def aud_nerr_upto(ex, st, children, db, k):
+    """Number of errors of the first k members of a list of sub-formulas:
+    N(elems, db, 0) = 0,  N(elems, db, k+1) = N(elems, db, k) + aud_nerr(elems[k], db).
+    A function of the list CONTENTS (the array value), so that it does not change when other lists do;
+    unfolded at the queried position (k-1 -> k)."""
+    n, arr, _ = lib.seq_parts(ex, st, children)
+    dt = ex.box(st, db)
+    kt = as_int(k)
+    S = uf('C12.nerr_upto', SEQ, Val, I, I)
+    elen = uf('C12.err_len', Val, Val, I)
+    q = z3.Int(fresh_name('q'))
+    st.assume(S(arr, dt, z3.IntVal(0)) == 0)
+    ax = z3.ForAll([q], z3.Implies(q >= 0, z3.And(S(arr, dt, q + 1) == S(arr, dt, q) + elen(z3.Select(arr, q), dt),
+                                                  elen(z3.Select(arr, q), dt) >= 0, S(arr, dt, q) >= 0)),
+                   patterns=[S(arr, dt, q + 1), elen(z3.Select(arr, q), dt)] if lib_pattern_ok(arr) else [])
+    if not any(ax.eq(h) for h in st.pc[-60:]):
+        st.pc.append(ax)
+    st.assume(z3.Implies(kt > 0, z3.And(S(arr, dt, kt) == S(arr, dt, kt - 1) + elen(z3.Select(arr, kt - 1), dt),
+                                        elen(z3.Select(arr, kt - 1), dt) >= 0)))
+    return v_int(S(arr, dt, kt))
